@@ -374,21 +374,38 @@ fn e2e_case(t: &mut Toks) -> Result<Value> {
     let outside_post = scan(&w.w, Some(&w.target));
 
     // ---- the oracle: the property, path by path
+    // the property's exclusion: an existing file with the snapshot's size and mtime but other bytes
+    // (only when verify_existing is off); hard links of the snapshot share its fate
+    let stale_scan = |p: &Path| -> bool {
+        match (pre.get(p), src.get(p)) {
+            (Some(a), Some(b)) => a.kind == 'f' && b.kind == 'f' && a.bytes.len() == b.bytes.len() && a.mtime == b.mtime && a.bytes != b.bytes,
+            _ => false,
+        }
+    };
+    let group = |p: &Path| -> Vec<PathBuf> {
+        match src.get(p) {
+            Some(s) if s.kind == 'f' => src.iter().filter(|(_, x)| x.kind == 'f' && x.ino == s.ino).map(|(q, _)| q.clone()).collect(),
+            _ => vec![p.to_path_buf()],
+        }
+    };
     let mut diffs: Vec<Value> = Vec::new();
     let mut add = |p: &Path, what: &str, detail: String| {
         // nearest ancestor-or-self that existed before with a type different from the snapshot's
         let mut clash: Option<String> = None;
-        let mut cur = Some(p);
-        while let Some(c) = cur {
-            if c.as_os_str().is_empty() {
-                break;
-            }
-            if let (Some(a), Some(b)) = (pre.get(c), src.get(c)) {
-                if a.kind != b.kind {
-                    clash = Some(format!("{}:{}>{}", lossy(c), a.kind, b.kind));
+        // ... of the path itself or of a path the snapshot hard-links it with
+        for g in group(p) {
+            let mut cur = Some(g.as_path());
+            while let Some(c) = cur {
+                if c.as_os_str().is_empty() {
+                    break;
                 }
+                if let (Some(a), Some(b)) = (pre.get(c), src.get(c)) {
+                    if a.kind != b.kind {
+                        clash = Some(format!("{}:{}>{}", lossy(c), a.kind, b.kind));
+                    }
+                }
+                cur = c.parent();
             }
-            cur = c.parent();
         }
         diffs.push(json!({"p": lossy(p), "what": what, "detail": detail, "pre": kind_of(&pre, p), "snap": kind_of(&src, p),
             "post": kind_of(&post, p), "clash": clash,
@@ -408,7 +425,7 @@ fn e2e_case(t: &mut Toks) -> Result<Value> {
                     add(p, "snapshot-path-type", format!("{} instead of {}", q.kind, s.kind));
                     continue;
                 }
-                let unconstrained = stale.contains(p) && !verify;
+                let unconstrained = !verify && (stale.contains(p) || group(p).iter().any(|g| stale_scan(g)));
                 if s.kind == 'f' && q.bytes != s.bytes && !unconstrained {
                     let first = q.bytes.iter().zip(s.bytes.iter()).position(|(a, b)| a != b).unwrap_or(q.bytes.len().min(s.bytes.len()));
                     add(p, "snapshot-path-content", format!("{} vs {} bytes, first difference at {}", q.bytes.len(), s.bytes.len(), first));
